@@ -259,13 +259,14 @@ def strip_last_label(routine_ops: list[list[SsbOperation]]) -> list[list[SsbOper
     """
     logger.debug("Stripping last label...")
     returned_routine_ops = []
+    # A label may be the target of a jump in another routine, so the jumps of all routines count.
+    jump_counts: dict[int, int] = {}
+    for routine in routine_ops:
+        for op in routine:
+            if isinstance(op, SsbLabelJump) and op.label is not None:
+                jump_counts[op.label.id] = jump_counts.get(op.label.id, 0) + 1
     for routine in routine_ops:
         if len(routine) > 0:
-            jump_counts: dict[int, int] = {}
-            for op in routine:
-                if isinstance(op, SsbLabelJump) and op.label is not None:
-                    jump_counts[op.label.id] = jump_counts.get(op.label.id, 0) + 1
-
             while len(routine) > 0 and isinstance(routine[-1], SsbLabel):
                 indices_to_remove = set()
                 label = routine[-1]
